@@ -121,7 +121,8 @@ def fwcall : P String := do
 
 /-- sl.hist  kind(P|D)  phases  <nstates> (slots)…  <initial state id>  <nops> ops…
     ops:  `S i sid` (model i is now in state sid)  |  `W i file` (model i saved)  |  `L file sid` (fresh model in state sid, loaded)
-    → `H <nloads>` then per load  `X` (no such file) | `E objarray` | `E keyerror <k>` | `R <n> (slot value)…` -/
+    → `H <nloads>` then per load  `X` (no such file) | `E objarray` | `E keyerror <k>` | `R <n> (slot value)…`,
+      then `F <n> names…` the distinct files that exist after the history -/
 def hist : P String := do
   let kind ← tok
   let phases ← lst tok
@@ -144,7 +145,8 @@ def hist : P String := do
     | some (.error .objectArray) => "E objarray"
     | some (.error (.keyError k)) => s!"E keyerror {k}"
     | some (.ok s') => s!"R {" ".intercalate (toString ns.length :: ns.map (fun n => s!"{n} {showVal (s' n)}"))}")
-  pure s!"H {" ".intercalate (toString outs.length :: body)}"
+  let files := (run sp p0 (ops.map (·.1))).files.names
+  pure s!"H {" ".intercalate (toString outs.length :: body)} F {" ".intercalate (toString files.length :: files)}"
 
 open KawinV.SurrogateFit in
 def qOf (t : String) : Option Q :=
@@ -184,6 +186,48 @@ def sghist : P String := do
     | some f => s!"{bstr f.settings.normalize} {f.nodes.length} {f.payload}"))
   pure s!"N {" ".intercalate (toString flags.length :: flags)} O {showM s} B {showM b}"
 
+open KawinV.SurrogateFit in
+/-- sg.load  kernel  normalize(T|F)  <nops> receiver-ops…  then per quantity of the refit order  `-` | `cols npoints payload`  (the file)
+    the receiver is built by the ops (as `sg.hist`), then `fromJson(file)` is called ON it (`loadInto`, hooks of the code)
+    → `R` per quantity `-` | `<normalize of the fit> <nodes> <payload>` (receiver before the load)  `L` the same after the load -/
+def sgload : P String := do
+  let kernel ← tok
+  let nrm ← bool
+  let ops ← lst (do
+    let t ← tok
+    if t == "T" then do
+      let qt ← tok; let cols ← nat; let np ← nat; let pay ← nat
+      match qOf qt with
+      | some q => pure (Op.train q ({ payload := pay, points := List.range np, cols := cols } : Train Nat Nat))
+      | none => failure
+    else if t == "Q" then do
+      let qt ← tok
+      match qOf qt with
+      | some q => pure (Op.query q)
+      | none => failure
+    else failure)
+  let entry : P (Option (Train Nat Nat)) := do
+    let t ← tok
+    if t == "-" then pure none
+    else match t.toNat? with
+      | some cols => do
+        let np ← nat; let pay ← nat
+        pure (some { payload := pay, points := List.range np, cols := cols })
+      | none => failure
+  let f0 ← entry; let f1 ← entry; let f2 ← entry; let f3 ← entry
+  let file : Q → Option (Train Nat Nat) := fun q =>
+    match q with
+    | .drivingForce => f0 | .diffusivity => f1 | .interfacial => f2 | .curvature => f3
+  let s0 : Settings := { kernel := kernel, normalize := nrm }
+  let h := code Nat
+  let r := runS h (empty Nat Nat s0) ops
+  let l := loadInto h r file
+  let showM := fun (x : Surr Nat Nat) => " ".intercalate (refitOrder.map (fun q =>
+    match x.models q with
+    | none => "-"
+    | some f => s!"{bstr f.settings.normalize} {f.nodes.length} {f.payload}"))
+  pure s!"R {showM r} L {showM l}"
+
 def handle (verb : String) : Option (P String) :=
   match verb with
   | "sl.rt" => some rt
@@ -192,6 +236,7 @@ def handle (verb : String) : Option (P String) :=
   | "fw.call" => some fwcall
   | "sl.hist" => some hist
   | "sg.hist" => some sghist
+  | "sg.load" => some sgload
   | _ => none
 
 end KawinV.Drv.C20
